@@ -798,7 +798,16 @@ func doCheck(id, tier string, seed uint64) int {
 		}
 		w := knownHits[k][0]
 		wj, _ := json.Marshal(w.Case)
-		fmt.Printf("KNOWN-FINDING: property=%s %s %s: %s (%d occurrence(s) this run; e.g. %s)\n", id, k, f.Site, f.What, n, head(string(wj), 300))
+		for _, x := range knownHits[k][1:] {
+			if xj, _ := json.Marshal(x.Case); len(xj) < len(wj) {
+				w, wj = x, xj
+			}
+		}
+		what := f.What
+		if i := strings.Index(what, ". "); i > 0 {
+			what = what[:i+1]
+		}
+		fmt.Printf("KNOWN-FINDING: property=%s %s %s: %s (%d occurrence(s) this run; e.g. %s)\n", id, k, f.Site, head(what, 300), n, head(string(wj), 400))
 		knownSummary[k] = map[string]any{"occurrences": n, "example": w.Case, "detail": head(w.Detail, 500)}
 	}
 	if code == 0 && len(out.incon) > 0 {
